@@ -92,6 +92,9 @@ func runC16(c *eng.Ctx) {
 		}
 	}
 
+	// an invalid batch is one whose file cannot be decoded to its end, too
+	streamDecodedToEOF(c, r1, pkgMOp+".MetricOperationsFromReader")
+
 	// ---- R2
 	r2 := c.Rule("C16.R2", "B:order+control-dependence", "replace semantics: expire(group) dominates the apply loop; the vault expires in every collector; collectors delete exactly entries with Group == group", 4)
 	if f := r2.NeedFunc(pkgMStor + ".(*MetricStorage).applyGroupOperations"); f != nil {
